@@ -103,6 +103,18 @@ pub fn run_random(rec: &mut Rec, seed: u64, run: u64, nops: usize) {
                 let resv: u128 = o["res"][i].as_str().unwrap().parse().unwrap();
                 let offer = gen::log_uniform(&mut r, 1, (resv / 3).max(2));
                 let k = 3 - i - j;
+                // one swap in eight aims at the collection threshold: pending protocol fee of the ask asset = 999 / 1000 / 1001
+                let offer = if r.gen_range(0..8) == 0 {
+                    let pending: u128 = o["fee"][j].as_str().unwrap().parse().unwrap();
+                    let target = 999 + r.gen_range(0..3u128);
+                    if target > pending {
+                        let need = target - pending;
+                        let pf_of = |f: &Full, x: u128| -> u128 { f.w.query::<SimulationResponse, _>(&tp.trio, &QueryMsg::Simulation { offer_asset: tp.assets[i].asset(x), ask_asset: tp.assets[j].asset(0) }).map(|s| s.protocol_fee_amount.u128()).unwrap_or(0) };
+                        let (mut lo, mut hi) = (1u128, (resv / 2).max(2));
+                        while lo < hi { let mid = lo + (hi - lo) / 2; if pf_of(&f, mid) >= need { hi = mid } else { lo = mid + 1 } }
+                        if pf_of(&f, lo) == need { lo } else { offer }
+                    } else { offer }
+                } else { offer };
                 let rv = |x: usize| -> u128 { o["res"][x].as_str().unwrap().parse().unwrap() };
                 let curve = {
                     let c = stableswap_3pool::verif_hooks::StableSwap::new(init, fut, height, start, stop);
@@ -161,7 +173,10 @@ pub fn run_random(rec: &mut Rec, seed: u64, run: u64, nops: usize) {
                 dpre = f.w.digest();
                 // one in eight: the direct withdrawal message with a coin attached instead of LP tokens handed in
                 let direct = r.gen_range(0..8) == 0;
-                rs = if direct {
+                rs = if direct && r.gen_bool(0.5) {
+                    // a forged cw20 receipt: the caller sends the Receive message itself, naming itself as the sender of LP tokens
+                    f.w.exec(&lp_user, &tp.trio.clone(), &forged_receive(&lp_user, amt.min(1_000_000), &Cw20HookMsg::WithdrawLiquidity {}), &[])
+                } else if direct {
                     let dn = match &tp.assets[0] { A::Native(d) => d.clone(), _ => "uwhale".to_string() };
                     f.w.exec(&lp_user, &tp.trio.clone(), &ExecuteMsg::WithdrawLiquidity {}, &[coin(amt.min(1_000_000), dn)])
                 } else {
